@@ -20,7 +20,7 @@ def run(kind, name, checks):
 
 
 jobs = []
-for kind in ("mutants", "benign", "seeded"):
+for kind in ("mutants", "benign", "benign_ext", "seeded"):
     for name, checks in sorted(exp.get(kind, {}).items()):
         if sel and not any(s in name for s in sel):
             continue
@@ -28,7 +28,7 @@ for kind in ("mutants", "benign", "seeded"):
 bad = 0
 with cf.ThreadPoolExecutor(max_workers=6) as ex:
     for kind, name, checks, got, out in ex.map(lambda j: run(*j), jobs):
-        want = 0 if kind == "benign" else 1
+        want = 0 if kind in ("benign", "benign_ext") else 1
         ok = all(got.get(c) == want for c in checks)
         print("%-8s %-40s %s %s" % (kind, name, "ok " if ok else "FAIL", {c: got.get(c) for c in checks}))
         if not ok:
